@@ -1,4 +1,1022 @@
-//! harness family c12 (stub until the family is built)
+//! harness family c12: malformed input yields an error, never a crash or hang.
+//!
+//! Streams (case indices are global and deterministic, so `--only <idx>` replays one case):
+//!   F  fronts tied to the Lean model (`Q` lines: outcome class ok/err/panic of a parsing front on the
+//!      real code vs `A2Verif.Model.Robust*`), also checked by the direct oracle
+//!   J  random / mutated JSON for `FileImage::from_json`, `Records::from_json`, `put_metadata`
+//!   T  random / mutated token streams for the three detokenizers, random bytes for the disassembler
+//!   I  single-field corruptions, truncations and extensions of seed images of every (format x FS),
+//!      then identify + mount + stat/catalog/tree/glob/get of every listed file
+//!
+//! Every call into a2kit runs in its own thread under `catch_unwind` with a watchdog:
+//!   panic  => FAIL sig `panic:<file>:<normalised message>`
+//!   no answer within the time limit => FAIL sig `hang:<front>`
 use crate::util::*;
+use a2kit::fs::{Block, DiskFS, FileImage, Records};
+use a2kit::img::{names, DiskImage, DiskKind};
+use a2kit::commands::ItemType;
+use std::sync::mpsc;
+use std::time::Duration;
 
-pub fn run(_ctx: &mut Ctx) {}
+const ORACLE: &str = "no-crash";
+
+// ------------------------------------------------------------------------------------------------
+// outcome of one guarded, watched call
+// ------------------------------------------------------------------------------------------------
+
+#[derive(Clone, Debug, PartialEq)]
+pub enum Outc {
+    Ok(String),
+    Err,
+    Panic(String),
+    Hang,
+}
+
+impl Outc {
+    pub fn class(&self) -> &'static str {
+        match self { Outc::Ok(_) => "ok", Outc::Err => "err", Outc::Panic(_) => "panic", Outc::Hang => "hang" }
+    }
+}
+
+/// `src/…` path of the panic site + normalised message (digits collapsed), stable under line shifts
+fn panic_sig(p: &str) -> String {
+    let (loc, msg) = match p.find(" [") { Some(i) => (&p[..i], &p[i + 2..]), None => (p, "") };
+    let file = loc.rsplitn(2, ':').last().unwrap_or(loc);
+    let file = match file.find("src/") { Some(i) => &file[i..], None => file };
+    let mut m = String::new();
+    let mut last_digit = false;
+    for c in msg.trim_end_matches(']').chars() {
+        if c.is_ascii_digit() { if !last_digit { m.push('N'); } last_digit = true; }
+        else if c.is_ascii_alphanumeric() { m.push(c.to_ascii_lowercase()); last_digit = false; }
+        else { if !m.ends_with('-') { m.push('-'); } last_digit = false; }
+    }
+    let m: String = m.trim_matches('-').chars().take(48).collect();
+    format!("panic:{}:{}", file, m)
+}
+
+/// run `f` in a thread under catch_unwind; give up after `ms` milliseconds
+fn watched<F>(ms: u64, f: F) -> Outc
+where F: FnOnce() -> Result<String, ()> + Send + 'static {
+    let (tx, rx) = mpsc::channel();
+    let h = std::thread::Builder::new().stack_size(16 << 20).spawn(move || {
+        let r = guarded(f);
+        let _ = tx.send(r);
+    });
+    let h = match h { Ok(h) => h, Err(_) => return Outc::Hang };
+    match rx.recv_timeout(Duration::from_millis(ms)) {
+        Ok(Ok(Ok(s))) => { let _ = h.join(); Outc::Ok(s) }
+        Ok(Ok(Err(()))) => { let _ = h.join(); Outc::Err }
+        Ok(Err(p)) => { let _ = h.join(); Outc::Panic(p) }
+        Err(_) => Outc::Hang, // thread is leaked
+    }
+}
+
+struct Run<'a> {
+    ctx: &'a mut Ctx,
+    /// record file of this (child) process: one record per line, flushed per line, so that an abort
+    /// (stack overflow, allocation failure) loses nothing but the case that caused it
+    w: std::io::LineWriter<std::fs::File>,
+    /// `<record file>.cur`: the case being executed right now
+    cur_path: String,
+    start: usize,
+    idx: usize,
+    /// hangs seen per front class: a hung thread cannot be killed, so a front that hung twice is not called again
+    hangs: std::collections::HashMap<String, usize>,
+}
+
+impl<'a> Run<'a> {
+    /// claims the next case index; None if the case is to be skipped (replay of another one, or done by an earlier child)
+    fn claim(&mut self) -> Option<usize> {
+        let i = self.idx;
+        self.idx += 1;
+        if i >= self.start && self.ctx.out.wants(i) { Some(i) } else { None }
+    }
+    fn line(&mut self, s: String) { use std::io::Write; let _ = writeln!(self.w, "{}", s.replace('\n', " ")); }
+    fn q(&mut self, req: &str, ans: &str) { self.line(format!("Q\t{}\t{}", req, ans)); }
+    fn oracle(&mut self, pass: bool, name: &str, sig: &str, case: &str) {
+        self.line(format!("O\t{}\t{}\t{}\t{}", if pass { "PASS" } else { "FAIL" }, name, sig, case.replace('\t', " ")));
+    }
+    fn case(&mut self, canon: &[u8], nontrivial: bool) { self.line(format!("C\t{:016X}\t{}", fnv(canon), if nontrivial { 1 } else { 0 })); }
+    fn sample(&mut self, s: &str) { self.line(format!("S\t{}", s.replace('\t', " "))); }
+    fn count(&mut self, key: &str) { self.count_n(key, 1); }
+    fn count_n(&mut self, key: &str, n: u64) { self.line(format!("D\t{}\t{}", key, n)); }
+    /// note the case about to run (read by the parent if this process dies)
+    fn mark(&mut self, idx: usize, front: &str, desc: &str) {
+        let _ = std::fs::write(&self.cur_path, format!("{}\t{}\t{}", idx, front, desc.replace('\t', " ").replace('\n', " ")));
+    }
+    /// true if this front already hung twice (its threads are still spinning): skip further calls
+    fn gave_up(&mut self, front: &str) -> bool {
+        if self.hangs.get(front).copied().unwrap_or(0) >= 2 { self.count(&format!("skipped-after-hangs:{}", front)); true } else { false }
+    }
+    /// direct oracle verdict for one watched call
+    fn verdict(&mut self, idx: usize, front: &str, o: &Outc, desc: &str) {
+        self.count(&format!("{}:{}", front.split('/').next().unwrap_or(front), o.class()));
+        match o {
+            Outc::Ok(_) | Outc::Err => self.oracle(true, ORACLE, "-", &format!("idx={} {}", idx, front)),
+            Outc::Panic(p) => {
+                let sig = panic_sig(p);
+                self.oracle(false, ORACLE, &sig, &format!("idx={} front={} at={} input={}", idx, front, p, desc));
+            }
+            Outc::Hang => {
+                *self.hangs.entry(front.to_string()).or_insert(0) += 1;
+                self.oracle(false, ORACLE, &format!("hang:{}", front), &format!("idx={} front={} input={}", idx, front, desc));
+            }
+        }
+    }
+}
+
+fn rbytes(rng: &mut Rng, max: usize) -> Vec<u8> { let n = rng.below(max); rng.bytes(n) }
+fn clip(s: &str, n: usize) -> String { if s.len() > n { format!("{}..({} chars)", &s.chars().take(n).collect::<String>(), s.len()) } else { s.to_string() } }
+fn cliphex(b: &[u8], n: usize) -> String { if b.len() > n { format!("{}..({} bytes)", hx(&b[..n]), b.len()) } else { hx(b) } }
+
+// ------------------------------------------------------------------------------------------------
+// stream F: fronts with a Lean model
+// ------------------------------------------------------------------------------------------------
+
+fn strhex(s: &str) -> String { hx(s.as_bytes()) }
+
+/// `FileImage::from_json` on a minimal object whose only interesting field is the version string:
+/// outcome class tells ok/err/panic of `version_tuple` + the `< (2,0,0)` test + the first missing field.
+fn fimg_json_with_version(v: &str) -> String {
+    let mut o = json::JsonValue::new_object();
+    o["fimg_version"] = json::JsonValue::String(v.to_string());
+    o.dump()
+}
+
+fn full_fimg_json(v: &str) -> json::JsonValue {
+    json::object! {
+        fimg_version: v, file_system: "prodos", chunk_len: 512, eof: "000200", fs_type: "04", aux: "0000",
+        access: "C3", accessed: "00000000", created: "00000000", modified: "00000000", version: "00", min_version: "00",
+        full_path: "HELLO", chunks: { "0": "48454C4C4F" }
+    }
+}
+
+fn version_strings(rng: &mut Rng, n: usize) -> Vec<String> {
+    let mut v: Vec<String> = ["2.1.0", "2.0.0", "1.9.9", "abc", "", "2", "2.1", "2.1.", ".", "..", "...", "2..0", "2.1.0.7", "2.1.x", "-1.0.0",
+        "+2.+1.+0", "2.1.0 ", " 2.1.0", "18446744073709551615.0.0", "18446744073709551616.0.0", "00002.0001.0", "3.0.0", "2.0", "1.2.3.4.5",
+        "٢.١.٠", "2,1,0", "0.0.0", "1.0.0"].iter().map(|s| s.to_string()).collect();
+    let alphabet: Vec<char> = "0123456789..+-x ".chars().collect();
+    for _ in 0..n {
+        let len = rng.below(9);
+        v.push((0..len).map(|_| *rng.pick(&alphabet)).collect());
+    }
+    v
+}
+
+fn stream_fronts(r: &mut Run) {
+    let mut rng = Rng::new(r.ctx.seed ^ 0xF0);
+    // F1 version_tuple through from_json
+    let n = r.ctx.n(150, 3000);
+    for v in version_strings(&mut rng, n) {
+        let Some(idx) = r.claim() else { continue };
+        // (a) only the version field present; (b) all fields present
+        let a = fimg_json_with_version(&v);
+        let vv = v.clone();
+        r.mark(idx, "fimg/version", &v);
+        let oa = watched(5000, move || FileImage::from_json(&a).map(|_| String::new()).map_err(|_| ()));
+        let b = full_fimg_json(&vv).dump();
+        let ob = watched(5000, move || FileImage::from_json(&b).map(|f| f.fimg_version).map_err(|_| ()));
+        r.q(&format!("c12 fimgver {}", strhex(&v)), &format!("{} {}", oa.class(), ob.class()));
+        r.verdict(idx, "fimg/version", &oa, &format!("{{\"fimg_version\":{:?}}}", v));
+        r.verdict(idx, "fimg/version-full", &ob, &format!("full file image with fimg_version {:?}", v));
+        r.case(format!("F1{}", v).as_bytes(), v != "2.1.0");
+    }
+    // F4 FAT boot sector: test_img + from_img on a 360K image whose sector 0 is a mutated BPB
+    let k360 = DiskKind::D525(names::IBM_DSDD_9);
+    let seed = match guarded(|| format_onto(Box::new(a2kit::img::dsk_img::Img::create(k360)), "fat", &k360)) { Ok(Ok(b)) => b, _ => { r.count("fat-front:no-seed"); return; } };
+    let mut cases: Vec<(Vec<u8>, [u8; 2])> = Vec::new();
+    let head: Vec<u8> = seed[0..64].to_vec();
+    let sig = [seed[510], seed[511]];
+    cases.push((head.clone(), sig));
+    { let mut h = head.clone(); h[13] = 0; cases.push((h, sig)); } // DESIGN 9 item 14
+    for off in 11..40usize {
+        for v in [0u8, 1, 2, 0x7F, 0x80, 0xFF, head[off].wrapping_add(1), head[off].wrapping_sub(1)] {
+            if v != head[off] { let mut h = head.clone(); h[off] = v; cases.push((h, sig)); }
+        }
+    }
+    for s2 in [[0u8, 0], [0x55, 0], [0xAA, 0x55], [0x55, 0xAB]] { cases.push((head.clone(), s2)); let mut h = head.clone(); h[13] = 0; cases.push((h, s2)); }
+    let n = r.ctx.n(300, 20000);
+    for k in 0..n {
+        let mut g = rng.fork(0xFA7 + k as u64);
+        let mut h = head.clone();
+        for _ in 0..g.range(1, 4) {
+            let off = g.range(11, 39);
+            h[off] = *g.pick(&[0u8, 1, 2, 4, 8, 0x10, 0x40, 0x80, 0xFF, 0xFE, 3]);
+        }
+        let s2 = if g.chance(80) { sig } else { [g.byte(), g.byte()] };
+        cases.push((h, s2));
+    }
+    for (h, s2) in cases {
+        let Some(idx) = r.claim() else { continue };
+        let mut image = vec![0u8; seed.len()];
+        image[0..64].copy_from_slice(&h);
+        image[510] = s2[0]; image[511] = s2[1];
+        let desc = format!("360K IMG, sector 0 = {} 00.. {}", hx(&h), hx(&s2));
+        r.mark(idx, "fat/mount", &desc);
+        let o = watched(5000, move || {
+            let mut img: Box<dyn DiskImage> = Box::new(a2kit::img::dsk_img::Img::from_bytes(&image).map_err(|_| ())?);
+            if !a2kit::fs::fat::Disk::test_img(&mut img) { return Err(()); }
+            match a2kit::fs::fat::Disk::from_img(img, None) { Ok(_) => Ok(String::new()), Err(_) => Ok("from_img-err".to_string()) }
+        });
+        r.q(&format!("c12 fatmount {} {}", hx(&h), hx(&s2)), o.class());
+        r.verdict(idx, "fat/mount", &o, &desc);
+        r.case(&[&h[..], &s2[..]].concat(), h != head || s2 != sig);
+    }
+    // F2 WOZ2 container: synthetic files made of chunks with sizes around the thresholds of the parser
+    let mut wz: Vec<Vec<u8>> = vec![woz2_synth(&[(b"TRKS", 16, 0)], 0), woz2_synth(&[(b"INFO", 60, 1), (b"TMAP", 160, 0), (b"TRKS", 1280, 0)], 0),
+        woz2_synth(&[(b"INFO", 60, 7), (b"TMAP", 160, 0), (b"TRKS", 1280 + 512, 0)], 0), woz2_synth(&[], 0), woz2_synth(&[(b"TRKS", 1279, 0)], 0), woz2_synth(&[(b"TRKS", 1280, 0)], 7)];
+    let n = r.ctx.n(400, 20000);
+    for k in 0..n {
+        let mut g = rng.fork(0x302 + k as u64);
+        let mut chunks: Vec<(&[u8; 4], usize, u8)> = Vec::new();
+        for _ in 0..g.range(0, 5) {
+            let id: &[u8; 4] = *g.pick(&[b"INFO", b"TMAP", b"TRKS", b"META", b"WRIT", b"JUNK", b"INFO", b"TMAP", b"TRKS"]);
+            let size = match id { b"INFO" => *g.pick(&[60usize, 60, 60, 59, 0, 61, 10]), b"TMAP" => *g.pick(&[160usize, 160, 160, 159, 0, 200]),
+                b"TRKS" => *g.pick(&[1280usize, 1280, 1792, 1279, 16, 0, 1281, 1287, 1288, 2000, 8]), _ => *g.pick(&[0usize, 1, 8, 40]) };
+            chunks.push((id, size, *g.pick(&[1u8, 1, 2, 2, 0, 3, 7, 0xFF])));
+        }
+        let mut b = woz2_synth(&chunks, g.below(12));
+        if g.chance(15) { let n = g.below(b.len() + 1); b.truncate(n); }
+        if g.chance(10) && b.len() > 3 { b[3] = *g.pick(&[0x31u8, 0x33, 0]); }
+        if g.chance(10) && b.len() > 20 { let i = g.range(12, b.len() - 1); b[i] = g.byte(); }
+        wz.push(b);
+    }
+    for b in wz {
+        let Some(idx) = r.claim() else { continue };
+        let desc = cliphex(&b, 120);
+        r.mark(idx, "woz2/from_bytes", &desc);
+        let b2 = b.clone();
+        let o = watched(5000, move || a2kit::img::woz2::Woz2::from_bytes(&b2).map(|_| String::new()).map_err(|_| ()));
+        r.q(&format!("c12 woz2 {}", hx(&b)), o.class());
+        r.verdict(idx, "woz2/from_bytes", &o, &desc);
+        r.case(&b, true);
+    }
+}
+
+/// a WOZ2 file from (chunk id, declared size, flavour) + `tail` trailing bytes; INFO bodies are plausible with
+/// disk type = flavour, TMAP all 0xFF except entry 0, TRKS zero
+fn woz2_synth(chunks: &[(&[u8; 4], usize, u8)], tail: usize) -> Vec<u8> {
+    let mut b: Vec<u8> = vec![0x57, 0x4f, 0x5a, 0x32, 0xff, 0x0a, 0x0d, 0x0a, 0, 0, 0, 0];
+    for (id, size, fl) in chunks {
+        b.extend_from_slice(&id[..]);
+        b.extend_from_slice(&(*size as u32).to_le_bytes());
+        let mut body = vec![0u8; *size];
+        match &id[..] {
+            b"INFO" => { let set = |body: &mut Vec<u8>, i: usize, v: u8| { if i < body.len() { body[i] = v; } };
+                set(&mut body, 0, if *fl == 3 { 3 } else { 2 }); set(&mut body, 1, *fl); set(&mut body, 37, if *fl == 2 { 2 } else if *fl == 0 { 0 } else { 1 });
+                if *fl == 3 { set(&mut body, 46, 1); set(&mut body, 48, 1); } }
+            b"TMAP" => { for x in body.iter_mut() { *x = 0xff; } if !body.is_empty() { body[0] = if *fl == 0xFF { 200 } else { 0 }; } }
+            b"META" => { for (i, x) in body.iter_mut().enumerate() { *x = if *fl == 7 { 0xC0 } else { b"a\tb\n"[i % 4] }; } }
+            _ => {}
+        }
+        b.extend(body);
+    }
+    b.extend(std::iter::repeat(0u8).take(tail));
+    b
+}
+
+// ------------------------------------------------------------------------------------------------
+// stream J: JSON inputs
+// ------------------------------------------------------------------------------------------------
+
+fn rand_json_value(rng: &mut Rng, depth: usize) -> json::JsonValue {
+    let strs = ["", "abc", "2.1.0", "prodos", "a2 dos", "a2 pascal", "cpm", "fat", "00", "0G", "ZZ", "0", "1", "-1", "FFFFFFFFFFFFFFFFFF", "rec", "48454C4C4F", "4"];
+    match rng.below(if depth == 0 { 6 } else { 8 }) {
+        0 => json::JsonValue::Null,
+        1 => json::JsonValue::Boolean(rng.chance(50)),
+        2 => (*rng.pick(&[0i64, 1, -1, 2, 255, 256, 512, 65535, 65536, 1 << 31, 1 << 32, i64::MAX, i64::MIN + 1])).into(),
+        3 => (*rng.pick(&[0.5f64, -0.0, 1e300, 1e-300, 18446744073709551616.0, 512.0])).into(),
+        4 | 5 => json::JsonValue::String(rng.pick(&strs).to_string()),
+        6 => { let mut a = json::JsonValue::new_array(); for _ in 0..rng.below(4) { let _ = a.push(rand_json_value(rng, depth - 1)); } a }
+        _ => { let mut o = json::JsonValue::new_object(); for _ in 0..rng.below(4) { let k = rng.pick(&strs).to_string(); o[k] = rand_json_value(rng, depth - 1); } o }
+    }
+}
+
+const FIMG_KEYS: [&str; 14] = ["fimg_version", "file_system", "chunk_len", "eof", "fs_type", "aux", "access", "accessed", "created", "modified", "version", "min_version", "full_path", "chunks"];
+
+fn mutate_text(rng: &mut Rng, s: &str) -> String {
+    let mut b = s.as_bytes().to_vec();
+    if b.is_empty() { return String::new(); }
+    for _ in 0..rng.range(1, 3) {
+        let i = rng.below(b.len());
+        match rng.below(5) {
+            0 => { b.remove(i); }
+            1 => { b.insert(i, *rng.pick(b"{}[]\",:0-9e.\\")); }
+            2 => { b[i] = rng.byte() & 0x7f; }
+            3 => { b.truncate(i); if b.is_empty() { break; } }
+            _ => { let j = rng.below(b.len()); b.swap(i, j); }
+        }
+        if b.is_empty() { break; }
+    }
+    String::from_utf8_lossy(&b).to_string()
+}
+
+fn stream_json(r: &mut Run) {
+    let mut rng0 = Rng::new(r.ctx.seed ^ 0x15);
+    // J1 FileImage::from_json, followed by the read-side accessors that a `put`/`unpack` would use
+    let n = r.ctx.n(1500, 40000);
+    for k in 0..n {
+        let mut rng = rng0.fork(k as u64);
+        let Some(idx) = r.claim() else { continue };
+        let mut o = full_fimg_json(*rng.pick(&["2.1.0", "2.0.0", "2.1.0", "2.1.0", "2.0.1", "3.0.0"]));
+        let text = match rng.below(10) {
+            0 => rand_json_value(&mut rng, 3).dump(),
+            1 => mutate_text(&mut rng, &o.dump()),
+            2 => { o.remove(*rng.pick(&FIMG_KEYS)); o.dump() }
+            3 | 4 => { let k = *rng.pick(&FIMG_KEYS); o[k] = rand_json_value(&mut rng, 2); o.dump() }
+            5 => { // chunk map mutations
+                let mut c = json::JsonValue::new_object();
+                for _ in 0..rng.below(4) {
+                    let key = rng.pick(&["0", "1", "-1", "x", "", "18446744073709551615", "18446744073709551616", "65535", "007", "+3"]).to_string();
+                    c[key] = rand_json_value(&mut rng, 1);
+                }
+                o["chunks"] = c; o.dump()
+            }
+            6 => { o["file_system"] = rng.pick(&["a2 dos", "a2 pascal", "prodos", "cpm", "fat", "nonsense", ""]).to_string().into();
+                   o["chunk_len"] = (*rng.pick(&[0u32, 1, 2, 128, 256, 512, 1024, 65535])).into();
+                   o["eof"] = hex::encode_upper(rbytes(&mut rng, 10)).into();
+                   o["fs_type"] = hex::encode_upper(rbytes(&mut rng, 4)).into();
+                   o["aux"] = hex::encode_upper(rbytes(&mut rng, 4)).into();
+                   o["chunks"]["0"] = hex::encode_upper(rbytes(&mut rng, 600)).into();
+                   o.dump() }
+            7 => { o["fimg_version"] = version_strings(&mut rng, 1).pop().unwrap().into(); o.dump() }
+            8 => String::from_utf8_lossy(&rbytes(&mut rng, 40)).to_string(),
+            _ => { let k = *rng.pick(&FIMG_KEYS[2..12]); o[k] = hex::encode_upper(rbytes(&mut rng, 12)).into(); o.dump() }
+        };
+        let t2 = text.clone();
+        r.mark(idx, "json/fimg", &clip(&text, 400));
+        let out = watched(5000, move || {
+            match FileImage::from_json(&t2) {
+                Ok(f) => {
+                    let _ = f.get_eof(); let _ = f.get_ftype(); let _ = f.get_aux(); let _ = f.end(); let _ = f.is_sparse();
+                    let _ = f.sequence_limited(1 << 16);
+                    let _ = f.to_json(None);
+                    Ok(if ["a2 dos", "a2 pascal", "prodos", "cpm", "fat"].contains(&f.file_system.as_str()) { "known-fs".to_string() } else { "accepted".to_string() })
+                }
+                Err(_) => Err(()),
+            }
+        });
+        // read-side use of an accepted file image (what `a2kit unpack` / `put` call first), one watched call each
+        if out == Outc::Ok("known-fs".to_string()) {
+            for which in ["raw", "bin", "txt", "tok", "rec", "rec16", "addr", "auto"] {
+                let front = format!("json/fimg-unpack/{}", which);
+                if r.gave_up(&front) { continue; }
+                let t3 = text.clone();
+                r.mark(idx, &front, &clip(&text, 400));
+                let o = watched(3000, move || {
+                    let f = FileImage::from_json(&t3).map_err(|_| ())?;
+                    match which {
+                        "raw" => { let _ = f.unpack_raw(true); let _ = f.unpack_raw(false); }
+                        "bin" => { let _ = f.unpack_bin(); }
+                        "txt" => { let _ = f.unpack_txt(); }
+                        "tok" => { let _ = f.unpack_tok(); }
+                        "rec" => { let _ = f.unpack_rec(None); }
+                        "rec16" => { let _ = f.unpack_rec(Some(16)); }
+                        "addr" => { let _ = f.get_load_address(); }
+                        _ => { let _ = f.unpack(); }
+                    }
+                    Ok(String::new())
+                });
+                r.verdict(idx, &front, &o, &clip(&text, 400));
+            }
+        }
+        r.verdict(idx, "json/fimg", &out, &clip(&text, 400));
+        r.case(text.as_bytes(), true);
+        if k < 2 { r.sample(&format!("json/fimg {}", clip(&text, 200))); }
+    }
+    // J1b: DOS 3.x Applesoft file images whose first chunk is too short / has no line terminator (deduce_address)
+    for chunk0 in ["", "00", "0000", "000041", "00000108", "0900010 80A004142".replace(' ', "").as_str(), "0500010000000A0041", "09000108FFFF0A00", "0B0001080A00BA22484922000000"] {
+        let Some(idx) = r.claim() else { continue };
+        let mut o = full_fimg_json("2.1.0");
+        o["file_system"] = "a2 dos".into(); o["chunk_len"] = 256.into(); o["fs_type"] = "02".into(); o["chunks"]["0"] = chunk0.into();
+        let text = o.dump();
+        r.mark(idx, "json/fimg-unpack/addr", &clip(&text, 400));
+        let t3 = text.clone();
+        let out = watched(3000, move || { let f = FileImage::from_json(&t3).map_err(|_| ())?; Ok(f.get_load_address().to_string()) });
+        r.verdict(idx, "json/fimg-unpack/addr", &out, &clip(&text, 400));
+        r.case(text.as_bytes(), true);
+    }
+    // J2 Records::from_json (+ to_json and update_fimg of what was accepted)
+    let n = r.ctx.n(600, 20000);
+    for k in 0..n {
+        let mut rng = rng0.fork(0x1_0000 + k as u64);
+        let Some(idx) = r.claim() else { continue };
+        let mut o = json::object! { fimg_type: "rec", record_length: 32, records: { "0": ["A", "B"], "5": ["HELLO"] } };
+        let text = match rng.below(8) {
+            0 => rand_json_value(&mut rng, 3).dump(),
+            1 => mutate_text(&mut rng, &o.dump()),
+            2 => { o["record_length"] = rand_json_value(&mut rng, 1); o.dump() }
+            3 => { o["record_length"] = (*rng.pick(&[0u64, 1, 2, 65535, 65536, 1 << 40, u64::MAX >> 1])).into(); o.dump() }
+            4 => { o["records"] = rand_json_value(&mut rng, 3); o.dump() }
+            5 => { let key = rng.pick(&["-1", "x", "", "18446744073709551615", "4294967296", "72057594037927936", "+3"]).to_string();
+                   o["records"][key] = json::array!["Z"]; o.dump() }
+            6 => { o["fimg_type"] = rand_json_value(&mut rng, 1); o.dump() }
+            _ => { o["records"]["1"] = rand_json_value(&mut rng, 2); o.dump() }
+        };
+        let t2 = text.clone();
+        r.mark(idx, "json/records", &clip(&text, 400));
+        let out = watched(5000, move || {
+            match Records::from_json(&t2) {
+                Ok(recs) => {
+                    let _ = recs.to_json(None);
+                    let _ = recs.to_string();
+                    Ok("accepted".to_string())
+                }
+                Err(_) => Err(()),
+            }
+        });
+        r.verdict(idx, "json/records", &out, &clip(&text, 400));
+        r.case(text.as_bytes(), true);
+    }
+}
+
+// ------------------------------------------------------------------------------------------------
+// stream T: token streams and machine code
+// ------------------------------------------------------------------------------------------------
+
+fn applesoft_seeds() -> Vec<Vec<u8>> {
+    let progs = ["10 PRINT \"HELLO\"\n20 GOTO 10\n", "10 REM A COMMENT\n20 DATA 1,\"TWO\",3: PRINT A$\n30 FOR I = 1 TO 10: NEXT I\n", "1 HOME : A$ = \"X\\x0aY\"\n"];
+    let mut v = Vec::new();
+    for p in progs {
+        let mut t = a2kit::lang::applesoft::tokenizer::Tokenizer::new();
+        if let Ok(b) = t.tokenize(p, 2049) { v.push(b); }
+    }
+    v
+}
+fn integer_seeds() -> Vec<Vec<u8>> {
+    let progs = ["10 PRINT \"HELLO\"\n20 GOTO 10\n", "10 REM A COMMENT\n20 A=A+1: IF A<10 THEN 20\n30 DIM A$(20): A$=\"XYZ\"\n40 END\n"];
+    let mut v = Vec::new();
+    for p in progs {
+        let mut t = a2kit::lang::integer::tokenizer::Tokenizer::new();
+        if let Ok(b) = t.tokenize(p.to_string()) { v.push(b); }
+    }
+    v
+}
+fn merlin_seeds() -> Vec<Vec<u8>> {
+    let progs = ["         ORG   $300\nSTART    LDA   #$00\n         RTS\n", "* COMMENT\nLOOP     JSR   $FDED ; PRINT\n         BNE   LOOP\n"];
+    let mut v = Vec::new();
+    for p in progs {
+        let mut t = a2kit::lang::merlin::tokenizer::Tokenizer::new();
+        if let Ok(b) = t.tokenize(p.to_string()) { v.push(b); }
+    }
+    v
+}
+
+fn mutate_bytes(rng: &mut Rng, seed: &[u8], special: &[u8]) -> Vec<u8> {
+    let mut b = seed.to_vec();
+    for _ in 0..rng.range(1, 3) {
+        if b.is_empty() { b.push(rng.byte()); continue; }
+        let i = rng.below(b.len());
+        match rng.below(7) {
+            0 => { b.truncate(i); }
+            1 => { b[i] = *rng.pick(special); }
+            2 => { b[i] = rng.byte(); }
+            3 => { b.insert(i, *rng.pick(special)); }
+            4 => { b.remove(i); }
+            5 => { b[i] = 0; }
+            _ => { let n = rng.below(4); for _ in 0..n { b.push(rng.byte()); } }
+        }
+    }
+    b
+}
+
+fn stream_tokens(r: &mut Run) {
+    let mut rng0 = Rng::new(r.ctx.seed ^ 0x70);
+    let aseeds = applesoft_seeds();
+    let iseeds = integer_seeds();
+    let mseeds = merlin_seeds();
+    // fixed witnesses first (DESIGN 9 item 18 and relatives)
+    let fixed_a: Vec<Vec<u8>> = vec![vec![0x01, 0x08, 0x0A, 0x00, 0x22, 0x41], vec![1, 8, 10, 0, 0x83, 0x41], vec![1, 8, 10, 0, 0xB2, 0x41], vec![1, 8, 10], vec![1, 8, 10, 0], vec![1, 8], vec![1], vec![], vec![1, 8, 10, 0, 0x22]];
+    let fixed_i: Vec<Vec<u8>> = vec![vec![0x05, 0x0A, 0x00, 0x28, 0xC1], vec![5, 10, 0, 0x28], vec![5, 10, 0, 0x5D, 0xC1], vec![5, 10, 0, 0x28, 0xDC, 0xF8, 0x30, 0x30, 0x29, 1], vec![5, 10, 0, 0xB1, 1], vec![5, 10, 0, 0xC1], vec![5, 10, 0], vec![5, 10], vec![5], vec![]];
+    let n = r.ctx.n(1500, 40000);
+    for k in 0..(fixed_a.len() + n) {
+        let mut rng = rng0.fork(k as u64);
+        let Some(idx) = r.claim() else { continue };
+        let input = if k < fixed_a.len() { fixed_a[k].clone() } else if aseeds.is_empty() || rng.chance(25) { let n = rng.below(24); rng.bytes(n) }
+            else { let sd: &Vec<u8> = &aseeds[rng.below(aseeds.len())]; mutate_bytes(&mut rng, sd, &[0, 0x22, 0x83, 0xB2, 0x3A, 0x5C, 0x78, 0xFF, 0xEB, 0x80]) };
+        let i2 = input.clone();
+        r.mark(idx, "detok/applesoft", &cliphex(&input, 200));
+        let out = watched(5000, move || a2kit::lang::applesoft::tokenizer::Tokenizer::new().detokenize(&i2).map(|s| s.len().to_string()).map_err(|_| ()));
+        r.q(&format!("c12 adetok {}", hx(&input)), out.class());
+        r.verdict(idx, "detok/applesoft", &out, &cliphex(&input, 200));
+        r.case(&[b"A", &input[..]].concat(), true);
+        if k == 0 { r.sample(&format!("detok/applesoft {}", hx(&input))); }
+    }
+    for k in 0..(fixed_i.len() + n) {
+        let mut rng = rng0.fork(0x10_0000 + k as u64);
+        let Some(idx) = r.claim() else { continue };
+        let input = if k < fixed_i.len() { fixed_i[k].clone() } else if iseeds.is_empty() || rng.chance(25) { let n = rng.below(24); rng.bytes(n) }
+            else { let sd: &Vec<u8> = &iseeds[rng.below(iseeds.len())]; mutate_bytes(&mut rng, sd, &[1, 0x28, 0x29, 0x5D, 0xDC, 0xF8, 0xB0, 0xB9, 0xC1, 0x7F, 0x30]) };
+        let i2 = input.clone();
+        r.mark(idx, "detok/integer", &cliphex(&input, 200));
+        let out = watched(5000, move || a2kit::lang::integer::tokenizer::Tokenizer::new().detokenize(&i2).map(|s| s.len().to_string()).map_err(|_| ()));
+        r.q(&format!("c12 idetok {}", hx(&input)), out.class());
+        r.verdict(idx, "detok/integer", &out, &cliphex(&input, 200));
+        r.case(&[b"I", &input[..]].concat(), true);
+        if k == 0 { r.sample(&format!("detok/integer {}", hx(&input))); }
+    }
+    let n = r.ctx.n(500, 20000);
+    for k in 0..n {
+        let mut rng = rng0.fork(0x20_0000 + k as u64);
+        let Some(idx) = r.claim() else { continue };
+        let input = if mseeds.is_empty() || rng.chance(30) { let n = rng.below(40); rng.bytes(n) }
+            else { let sd: &Vec<u8> = &mseeds[rng.below(mseeds.len())]; mutate_bytes(&mut rng, sd, &[0x8d, 0xa0, 0x20, 0x09, 0xbb, 0xaa, 0xa2, 0xa7, 0x7f, 0xff]) };
+        let i2 = input.clone();
+        r.mark(idx, "detok/merlin", &cliphex(&input, 200));
+        let out = watched(5000, move || a2kit::lang::merlin::tokenizer::Tokenizer::new().detokenize(&i2).map(|s| s.len().to_string()).map_err(|_| ()));
+        r.verdict(idx, "detok/merlin", &out, &cliphex(&input, 200));
+        r.case(&[b"M", &input[..]].concat(), true);
+    }
+    // disassembler: all processors, MX combinations, random bytes + opcode-dense buffers cut short
+    use a2kit::lang::merlin::ProcessorType;
+    use a2kit::lang::merlin::disassembly::{DasmRange, Disassembler};
+    let n = r.ctx.n(600, 30000);
+    for k in 0..n {
+        let mut rng = rng0.fork(0x30_0000 + k as u64);
+        let Some(idx) = r.claim() else { continue };
+        let len = if rng.chance(20) { rng.below(4) } else { rng.below(48) };
+        let input = match rng.below(4) {
+            0 => { let b = rng.byte(); vec![b; len] }
+            1 => (0..len).map(|_| *rng.pick(&[0x20u8, 0x4c, 0xa9, 0x44, 0x54, 0x80, 0x82, 0x22, 0x5c, 0x00, 0xff, 0xc1, 0x41])).collect(),
+            _ => rng.bytes(len),
+        };
+        let pk = rng.below(4);
+        let (m8, x8) = (rng.chance(50), rng.chance(50));
+        let mode = rng.below(5);
+        let labeling = rng.pick(&["all", "some", "none"]).to_string();
+        let i2 = input.clone();
+        let desc = format!("proc={} m8={} x8={} mode={} labels={} bytes={}", pk, m8, x8, mode, labeling, cliphex(&input, 200));
+        r.mark(idx, "dasm", &desc);
+        let out = watched(8000, move || {
+            let proc = match pk { 0 => ProcessorType::_6502, 1 => ProcessorType::_65c02, 2 => ProcessorType::_65802, _ => ProcessorType::_65c816 };
+            let mut d = Disassembler::new();
+            d.set_mx(m8, x8);
+            match mode {
+                0 | 1 => d.disassemble(&i2, DasmRange::All, proc, &labeling).map(|s| s.len().to_string()).map_err(|_| ()),
+                2 => { let e = i2.len(); let b = if e > 0 { e / 2 } else { 0 }; d.disassemble(&i2, DasmRange::Range([b, e]), proc, &labeling).map(|s| s.len().to_string()).map_err(|_| ()) }
+                3 => { d.set_program_counter(Some(0x300)); Ok(d.disassemble_as_data(&i2).len().to_string()) }
+                _ => { d.set_program_counter(Some(0x300)); Ok(d.disassemble_as_code(&i2).len().to_string()) }
+            }
+        });
+        r.verdict(idx, "dasm", &out, &desc);
+        r.case(desc.as_bytes(), !input.is_empty());
+    }
+}
+
+// ------------------------------------------------------------------------------------------------
+// stream I: disk images
+// ------------------------------------------------------------------------------------------------
+
+#[derive(Clone)]
+pub struct Seed {
+    pub name: String,
+    pub ext: &'static str,
+    pub fs: &'static str,
+    pub bytes: Vec<u8>,
+    /// raw sector container (fast to mount): FS-level corruptions are enumerated exhaustively
+    pub raw: bool,
+}
+
+fn add_files(disk: &mut Box<dyn DiskFS>, fs: &str) -> usize {
+    let mut n = 0;
+    let (txt, bin, prog, big, sub) = match fs {
+        "cpm" => ("HELLO.TXT", "BIN1.COM", "PROG.BAS", "BIG.DAT", ""),
+        "fat" => ("HELLO.TXT", "BIN1.COM", "PROG.BAS", "BIG.DAT", "DIR1"),
+        "pascal" => ("HELLO.TEXT", "BIN1.CODE", "PROG.DATA", "BIG.DATA", ""),
+        "prodos" => ("HELLO", "BIN1", "PROG", "BIG", "DIR1"),
+        _ => ("HELLO", "BIN1", "PROG", "BIG", ""),
+    };
+    if disk.write_text(txt, "HELLO WORLD\nSECOND LINE\n").is_ok() { n += 1; }
+    let data: Vec<u8> = (0..700u32).map(|i| (i * 7 % 251) as u8).collect();
+    if disk.bsave(bin, &data, Some(0x300), None).is_ok() { n += 1; }
+    let mut t = a2kit::lang::applesoft::tokenizer::Tokenizer::new();
+    if let Ok(tok) = t.tokenize("10 PRINT \"HI\"\n20 END\n", 2049) {
+        if disk.save(prog, &tok, ItemType::ApplesoftTokens, None).is_ok() { n += 1; }
+    }
+    let bigdat: Vec<u8> = (0..9000u32).map(|i| (i % 253) as u8).collect();
+    if disk.bsave(big, &bigdat, Some(0x2000), None).is_ok() { n += 1; }
+    if !sub.is_empty() {
+        if disk.create(sub).is_ok() {
+            n += 1;
+            let p = format!("{}/{}", sub, if fs == "fat" { "SUB.TXT" } else { "SUBFILE" });
+            if disk.write_text(&p, "IN A SUBDIRECTORY\n").is_ok() { n += 1; }
+        }
+    }
+    n
+}
+
+fn format_onto(img: Box<dyn DiskImage>, fs: &str, kind: &DiskKind) -> Result<Vec<u8>, String> {
+    let e = |x: Box<dyn std::error::Error>| x.to_string();
+    let mut disk: Box<dyn DiskFS> = match fs {
+        "dos33" => { let mut d = a2kit::fs::dos3x::Disk::from_img(img).map_err(e)?; d.init33(254, false).map_err(e)?; Box::new(d) }
+        "dos32" => { let mut d = a2kit::fs::dos3x::Disk::from_img(img).map_err(e)?; d.init32(254, false).map_err(e)?; Box::new(d) }
+        "prodos" => { let floppy = matches!(img.kind(), DiskKind::D35(_) | DiskKind::D525(_)); let mut d = a2kit::fs::prodos::Disk::from_img(img).map_err(e)?; d.format("NEW.DISK", floppy, None).map_err(e)?; Box::new(d) }
+        "pascal" => { let mut d = a2kit::fs::pascal::Disk::from_img(img).map_err(e)?; d.format("BLANK", 0xee, None).map_err(e)?; Box::new(d) }
+        "cpm" => { let mut d = a2kit::fs::cpm::Disk::from_img(img, a2kit::bios::dpb::DiskParameterBlock::create(kind), [2, 2, 3]).map_err(e)?; d.format("", None).map_err(e)?; Box::new(d) }
+        "cpm3" => { let t = chrono::NaiveDate::from_ymd_opt(2000, 1, 1).unwrap().and_hms_opt(0, 0, 0);
+                    let mut d = a2kit::fs::cpm::Disk::from_img(img, a2kit::bios::dpb::DiskParameterBlock::create(kind), [3, 1, 0]).map_err(e)?; d.format("VOL", t).map_err(e)?; Box::new(d) }
+        "fat" => { let bs = a2kit::bios::bpb::BootSector::create(&img.kind()).map_err(e)?; let mut d = a2kit::fs::fat::Disk::from_img(img, Some(bs)).map_err(e)?; d.format("VOLNAME", None).map_err(e)?; Box::new(d) }
+        _ => return Err("unknown fs".to_string()),
+    };
+    let fsk = if fs == "cpm3" { "cpm" } else if fs.starts_with("dos3") { "dos" } else { fs };
+    let n = add_files(&mut disk, fsk);
+    if n == 0 { return Err("no files could be added".to_string()); }
+    Ok(disk.get_img().to_bytes())
+}
+
+pub fn build_seeds(thorough: bool) -> Vec<Seed> {
+    use a2kit::img::*;
+    let mut v: Vec<Seed> = Vec::new();
+    let mut add = |name: &str, ext: &'static str, fs: &'static str, raw: bool, mk: &dyn Fn() -> Option<(Box<dyn DiskImage>, DiskKind)>| {
+        let name2 = name.to_string();
+        let res = guarded(|| { match mk() { Some((img, kind)) => format_onto(img, fs, &kind), None => Err("image type refused".to_string()) } });
+        match res {
+            Ok(Ok(bytes)) => v.push(Seed { name: name2, ext, fs: if fs == "cpm3" { "cpm" } else { fs }, bytes, raw }),
+            Ok(Err(e)) => eprintln!("c12: seed {} not built: {}", name2, e),
+            Err(p) => eprintln!("c12: seed {} not built: panic {}", name2, p),
+        }
+    };
+    let w = |s: &str| Some(s.to_string());
+    // --- raw sector containers
+    add("do/dos33", "do", "dos33", true, &|| Some((Box::new(dsk_do::DO::create(35, 16)), names::A2_DOS33_KIND)));
+    add("d13/dos32", "d13", "dos32", true, &|| Some((Box::new(dsk_d13::D13::create(35)), names::A2_DOS32_KIND)));
+    add("po/prodos", "po", "prodos", true, &|| Some((Box::new(dsk_po::PO::create(280)), names::A2_DOS33_KIND)));
+    add("do/prodos", "do", "prodos", true, &|| Some((Box::new(dsk_do::DO::create(35, 16)), names::A2_DOS33_KIND)));
+    add("po/pascal", "po", "pascal", true, &|| Some((Box::new(dsk_po::PO::create(280)), names::A2_DOS33_KIND)));
+    add("do/pascal", "do", "pascal", true, &|| Some((Box::new(dsk_do::DO::create(35, 16)), names::A2_DOS33_KIND)));
+    add("do/cpm", "do", "cpm", true, &|| Some((Box::new(dsk_do::DO::create(35, 16)), names::A2_DOS33_KIND)));
+    add("img/fat-360", "img", "fat", true, &|| { let k = DiskKind::D525(names::IBM_DSDD_9); Some((Box::new(dsk_img::Img::create(k)), k)) });
+    add("img/fat-160", "img", "fat", true, &|| { let k = DiskKind::D525(names::IBM_SSDD_8); Some((Box::new(dsk_img::Img::create(k)), k)) });
+    add("po/prodos-800", "po", "prodos", true, &|| Some((Box::new(dsk_po::PO::create(1600)), names::A2_800_KIND)));
+    // --- containers with a header or an encoding
+    add("2mg-do/prodos", "2mg", "prodos", false, &|| dot2mg::Dot2mg::create(254, names::A2_DOS33_KIND, w("do").as_ref()).ok().map(|i| (i, names::A2_DOS33_KIND)));
+    add("2mg-do/dos33", "2mg", "dos33", false, &|| dot2mg::Dot2mg::create(254, names::A2_DOS33_KIND, w("do").as_ref()).ok().map(|i| (i, names::A2_DOS33_KIND)));
+    add("2mg-po/prodos-400", "2mg", "prodos", false, &|| dot2mg::Dot2mg::create(254, names::A2_400_KIND, w("po").as_ref()).ok().map(|i| (i, names::A2_400_KIND)));
+    add("woz2/dos33", "woz", "dos33", false, &|| Some((Box::new(woz2::Woz2::create(254, names::A2_DOS33_KIND)), names::A2_DOS33_KIND)));
+    add("woz1/dos33", "woz", "dos33", false, &|| Some((Box::new(woz1::Woz1::create(254, names::A2_DOS33_KIND)), names::A2_DOS33_KIND)));
+    add("woz2/prodos", "woz", "prodos", false, &|| Some((Box::new(woz2::Woz2::create(254, names::A2_DOS33_KIND)), names::A2_DOS33_KIND)));
+    add("nib/dos33", "nib", "dos33", false, &|| Some((Box::new(nib::Nib::create(254, names::A2_DOS33_KIND)), names::A2_DOS33_KIND)));
+    add("imd/cpm-osb", "imd", "cpm", false, &|| Some((Box::new(imd::Imd::create(names::OSBORNE1_DD_KIND)), names::OSBORNE1_DD_KIND)));
+    add("imd/fat-360", "imd", "fat", false, &|| { let k = DiskKind::D525(names::IBM_DSDD_9); Some((Box::new(imd::Imd::create(k)), k)) });
+    add("td0/fat-360", "td0", "fat", false, &|| { let k = DiskKind::D525(names::IBM_DSDD_9); Some((Box::new(td0::Td0::create(k)), k)) });
+    add("td0/cpm-kay", "td0", "cpm", false, &|| Some((Box::new(td0::Td0::create(names::KAYPROII_KIND)), names::KAYPROII_KIND)));
+    if thorough {
+        add("woz2/dos32", "woz", "dos32", false, &|| Some((Box::new(woz2::Woz2::create(254, names::A2_DOS32_KIND)), names::A2_DOS32_KIND)));
+        add("woz1/dos32", "woz", "dos32", false, &|| Some((Box::new(woz1::Woz1::create(254, names::A2_DOS32_KIND)), names::A2_DOS32_KIND)));
+        add("woz1/prodos", "woz", "prodos", false, &|| Some((Box::new(woz1::Woz1::create(254, names::A2_DOS33_KIND)), names::A2_DOS33_KIND)));
+        add("woz2/pascal", "woz", "pascal", false, &|| Some((Box::new(woz2::Woz2::create(254, names::A2_DOS33_KIND)), names::A2_DOS33_KIND)));
+        add("woz2/cpm", "woz", "cpm", false, &|| Some((Box::new(woz2::Woz2::create(254, names::A2_DOS33_KIND)), names::A2_DOS33_KIND)));
+        add("woz2/prodos-800", "woz", "prodos", false, &|| Some((Box::new(woz2::Woz2::create(254, names::A2_800_KIND)), names::A2_800_KIND)));
+        add("woz2/prodos-400", "woz", "prodos", false, &|| Some((Box::new(woz2::Woz2::create(254, names::A2_400_KIND)), names::A2_400_KIND)));
+        add("nib/dos32", "nib", "dos32", false, &|| Some((Box::new(nib::Nib::create(254, names::A2_DOS32_KIND)), names::A2_DOS32_KIND)));
+        add("nib/prodos", "nib", "prodos", false, &|| Some((Box::new(nib::Nib::create(254, names::A2_DOS33_KIND)), names::A2_DOS33_KIND)));
+        add("2mg-nib/dos33", "2mg", "dos33", false, &|| dot2mg::Dot2mg::create(254, names::A2_DOS33_KIND, w("nib").as_ref()).ok().map(|i| (i, names::A2_DOS33_KIND)));
+        add("imd/cpm-kay4", "imd", "cpm", false, &|| Some((Box::new(imd::Imd::create(names::KAYPRO4_KIND)), names::KAYPRO4_KIND)));
+        add("imd/cpm-8in", "imd", "cpm", false, &|| Some((Box::new(imd::Imd::create(names::IBM_CPM1_KIND)), names::IBM_CPM1_KIND)));
+        add("imd/cpm3-ams", "imd", "cpm3", false, &|| Some((Box::new(imd::Imd::create(names::AMSTRAD_SS_KIND)), names::AMSTRAD_SS_KIND)));
+        add("imd/cpm-nabu", "imd", "cpm", false, &|| Some((Box::new(imd::Imd::create(names::NABU_CPM_KIND)), names::NABU_CPM_KIND)));
+        add("imd/cpm-trs", "imd", "cpm", false, &|| Some((Box::new(imd::Imd::create(names::TRS80_M2_CPM_KIND)), names::TRS80_M2_CPM_KIND)));
+        add("imd/fat-1440", "imd", "fat", false, &|| { let k = DiskKind::D35(names::IBM_1440); Some((Box::new(imd::Imd::create(k)), k)) });
+        add("td0/fat-720", "td0", "fat", false, &|| { let k = DiskKind::D35(names::IBM_720); Some((Box::new(td0::Td0::create(k)), k)) });
+        add("td0/cpm-osb-sd", "td0", "cpm", false, &|| Some((Box::new(td0::Td0::create(names::OSBORNE1_SD_KIND)), names::OSBORNE1_SD_KIND)));
+        add("img/fat-1200", "img", "fat", true, &|| { let k = DiskKind::D525(names::IBM_DSHD); Some((Box::new(dsk_img::Img::create(k)), k)) });
+        add("img/fat-720", "img", "fat", true, &|| { let k = DiskKind::D35(names::IBM_720); Some((Box::new(dsk_img::Img::create(k)), k)) });
+    }
+    v
+}
+
+/// identify + mount + the read-only queries; returns a short summary (or Err if nothing mounted)
+fn exercise(bytes: &Vec<u8>, ext: Option<&str>) -> Result<String, ()> {
+    // identification of the container alone
+    let _ = a2kit::create_img_from_bytestream(bytes, ext).map(|mut i| { let _ = i.get_metadata(None); });
+    let mut disk = match a2kit::create_fs_from_bytestream(bytes, ext) { Ok(d) => d, Err(_) => return Err(()) };
+    let mut sum = String::new();
+    let st = disk.stat();
+    sum += if st.is_ok() { "S" } else { "s" };
+    if let Ok(s) = st { let _ = s.to_json(None); }
+    let cat = disk.catalog_to_vec("/");
+    sum += if cat.is_ok() { "C" } else { "c" };
+    let tr = disk.tree(true, None);
+    sum += if tr.is_ok() { "T" } else { "t" };
+    let mut paths: Vec<String> = Vec::new();
+    for pat in ["*", "*/*"] {
+        match disk.glob(pat, false) { Ok(mut g) => { sum += "G"; paths.append(&mut g); } Err(_) => sum += "g" }
+    }
+    // names straight from the catalog rows as well (column 12.. is the basename)
+    if let Ok(rows) = &cat { for row in rows { if row.len() > 12 { paths.push(row[12..].to_string()); } } }
+    paths.sort(); paths.dedup();
+    let mut got = 0;
+    for p in paths.iter().take(24) {
+        if let Ok(f) = disk.get(p) { got += 1; let _ = f.unpack_raw(true); let _ = f.to_json(None); }
+    }
+    sum += &format!(" files={} got={}", paths.len(), got);
+    Ok(sum)
+}
+
+#[derive(Clone, Debug)]
+enum Mutn {
+    /// byte at file offset := value
+    Poke(usize, u8),
+    /// 16/32-bit little-endian field at file offset := value
+    PokeLE(usize, usize, u64),
+    Truncate(usize),
+    Extend(usize, u8),
+    /// byte `off` of FS block := value  (written through the image layer, so the container stays valid)
+    Blk(BlockRef, usize, u8),
+}
+
+#[derive(Clone, Copy, Debug)]
+enum BlockRef { D13(usize, usize), DO(usize, usize), PO(usize), CPM(usize, u8, u16), FAT(u64) }
+impl BlockRef {
+    fn to_block(&self) -> Block {
+        match *self { BlockRef::D13(t, s) => Block::D13([t, s]), BlockRef::DO(t, s) => Block::DO([t, s]), BlockRef::PO(b) => Block::PO(b),
+            BlockRef::CPM(b, bsh, off) => Block::CPM((b, bsh, off)), BlockRef::FAT(s) => Block::FAT((s, 1)) }
+    }
+}
+
+fn values_for(orig: u8) -> Vec<u8> {
+    let mut v = vec![0x00, 0xFF, orig.wrapping_add(1), orig.wrapping_sub(1), orig ^ 0x80];
+    v.sort(); v.dedup(); v.retain(|x| *x != orig);
+    v
+}
+
+/// the FS metadata blocks of a mounted seed: (block, bytes)
+fn fs_blocks(seed: &Seed) -> Vec<(BlockRef, Vec<u8>)> {
+    let mut out = Vec::new();
+    let r = guarded(|| -> Vec<(BlockRef, Vec<u8>)> {
+        let mut v = Vec::new();
+        let mut img = match a2kit::create_img_from_bytestream(&seed.bytes, Some(seed.ext)) { Ok(i) => i, Err(_) => return v };
+        let mut refs: Vec<BlockRef> = Vec::new();
+        match seed.fs {
+            "dos33" => {
+                refs.push(BlockRef::DO(17, 0)); refs.push(BlockRef::DO(17, 15)); refs.push(BlockRef::DO(17, 14));
+                if let Ok(cat) = img.read_block(Block::DO([17, 15])) { // T/S list of the first two files
+                    for e in 0..2 { let (t, s) = (cat[0x0b + e * 35] as usize, cat[0x0c + e * 35] as usize); if t < 35 && s < 16 && t > 0 { refs.push(BlockRef::DO(t, s)); } }
+                }
+            }
+            "dos32" => {
+                refs.push(BlockRef::D13(17, 0)); refs.push(BlockRef::D13(17, 12)); refs.push(BlockRef::D13(17, 11));
+                if let Ok(cat) = img.read_block(Block::D13([17, 12])) {
+                    for e in 0..2 { let (t, s) = (cat[0x0b + e * 35] as usize, cat[0x0c + e * 35] as usize); if t < 35 && s < 13 && t > 0 { refs.push(BlockRef::D13(t, s)); } }
+                }
+            }
+            "prodos" => {
+                refs.push(BlockRef::PO(2)); refs.push(BlockRef::PO(3)); refs.push(BlockRef::PO(6));
+                if let Ok(dir) = img.read_block(Block::PO(2)) { // key blocks of the entries (index blocks, subdirectory key block)
+                    for e in 1..8 { let o = 4 + e * 39; let st = dir[o] >> 4; let kp = dir[o + 0x11] as usize + 256 * dir[o + 0x12] as usize;
+                        if (st == 2 || st == 3 || st == 13) && kp > 6 && kp < 1600 { refs.push(BlockRef::PO(kp)); } }
+                }
+            }
+            "pascal" => { refs.push(BlockRef::PO(2)); refs.push(BlockRef::PO(3)); }
+            "cpm" => {
+                let kind = img.kind();
+                let dpb = guarded(|| a2kit::bios::dpb::DiskParameterBlock::create(&kind));
+                if let Ok(dpb) = dpb { refs.push(BlockRef::CPM(0, dpb.bsh, dpb.off)); }
+            }
+            "fat" => {
+                refs.push(BlockRef::FAT(0)); refs.push(BlockRef::FAT(1));
+                if let Ok(b) = img.read_block(Block::FAT((0, 1))) {
+                    let res = b[14] as u64 + 256 * b[15] as u64; let nf = b[16] as u64; let fsz = b[22] as u64 + 256 * b[23] as u64;
+                    let root = res + nf * fsz; let rootsecs = (b[17] as u64 + 256 * b[18] as u64) * 32 / 512;
+                    refs.push(BlockRef::FAT(root));
+                    // first sector of the subdirectory DIR1 if present: scan root for attribute 0x10
+                    if let Ok(rd) = img.read_block(Block::FAT((root, 1))) {
+                        for e in 0..16 { if rd[e * 32 + 11] == 0x10 { let cl = rd[e * 32 + 26] as u64 + 256 * rd[e * 32 + 27] as u64; let spc = b[13] as u64;
+                            if cl >= 2 && spc > 0 { refs.push(BlockRef::FAT(root + rootsecs + (cl - 2) * spc)); } } }
+                    }
+                }
+            }
+            _ => {}
+        }
+        for rf in refs { if let Ok(b) = img.read_block(rf.to_block()) { v.push((rf, b)); } }
+        v
+    });
+    if let Ok(v) = r { out = v; }
+    out
+}
+
+fn apply(seed: &Seed, m: &Mutn) -> Option<Vec<u8>> {
+    match m {
+        Mutn::Poke(o, v) => { let mut b = seed.bytes.clone(); if *o < b.len() { b[*o] = *v; Some(b) } else { None } }
+        Mutn::PokeLE(o, w, v) => { let mut b = seed.bytes.clone(); if o + w <= b.len() { for i in 0..*w { b[o + i] = (v >> (8 * i)) as u8; } Some(b) } else { None } }
+        Mutn::Truncate(n) => { if *n <= seed.bytes.len() { Some(seed.bytes[..*n].to_vec()) } else { None } }
+        Mutn::Extend(n, v) => { let mut b = seed.bytes.clone(); b.extend(std::iter::repeat(*v).take(*n)); Some(b) }
+        Mutn::Blk(rf, off, v) => {
+            let (rf, off, v) = (*rf, *off, *v);
+            let bytes = seed.bytes.clone(); let ext = seed.ext;
+            guarded(move || -> Option<Vec<u8>> {
+                let mut img = a2kit::create_img_from_bytestream(&bytes, Some(ext)).ok()?;
+                let mut blk = img.read_block(rf.to_block()).ok()?;
+                if off >= blk.len() { return None; }
+                blk[off] = v;
+                img.write_block(rf.to_block(), &blk).ok()?;
+                Some(img.to_bytes())
+            }).ok().flatten()
+        }
+    }
+}
+
+/// offsets in the seed file that belong to container structures (headers, chunk headers, track headers)
+fn container_offsets(seed: &Seed) -> (Vec<usize>, Vec<usize>) {
+    // returns (byte offsets to corrupt, structure boundaries for truncation)
+    let b = &seed.bytes;
+    let mut offs: Vec<usize> = Vec::new();
+    let mut bounds: Vec<usize> = vec![0, 1, 99, 100, 101, 512, b.len() / 2, b.len() - 1];
+    match seed.ext {
+        "woz" => {
+            offs.extend(0..12);
+            let mut p = 12;
+            while p + 8 <= b.len() {
+                let size = u32::from_le_bytes([b[p + 4], b[p + 5], b[p + 6], b[p + 7]]) as usize;
+                let id = &b[p..p + 4];
+                bounds.push(p); bounds.push(p + 8);
+                offs.extend(p..p + 8);
+                if id == b"INFO" { offs.extend(p + 8..(p + 8 + size).min(b.len())); }
+                if id == b"TMAP" { offs.extend((p + 8..p + 8 + 16).chain(p + 8 + 156..p + 8 + 160)); }
+                if id == b"TRKS" { if b[3] == b'2' { offs.extend(p + 8..p + 8 + 24); offs.extend(p + 8 + 34 * 8..p + 8 + 36 * 8); bounds.push(p + 8 + 1280); }
+                    else { offs.extend(p + 8 + 6646..p + 8 + 6656); bounds.push(p + 8 + 6656); } }
+                if id == b"META" { offs.extend(p + 8..(p + 8 + size.min(24)).min(b.len())); }
+                p += 8 + size;
+            }
+            bounds.push(p.min(b.len()));
+        }
+        "2mg" => { offs.extend(0..64); bounds.extend([63, 64, 65]); }
+        "imd" => {
+            let eoh = b.iter().position(|x| *x == 0x1a).unwrap_or(0);
+            offs.extend(0..(eoh + 1).min(40)); offs.push(eoh);
+            bounds.extend([eoh, eoh + 1]);
+            // first two track headers, sector maps and the first data-record type byte of each
+            let mut p = eoh + 1;
+            for _t in 0..3 {
+                if p + 5 > b.len() { break; }
+                let nsec = b[p + 3] as usize; let ssz = 128usize << (b[p + 4].min(6));
+                bounds.push(p); bounds.push(p + 5); bounds.push(p + 5 + nsec);
+                offs.extend(p..(p + 5 + nsec).min(b.len()));
+                let mut q = p + 5 + nsec;
+                for _s in 0..nsec { if q >= b.len() { break; } offs.push(q); q += match b[q] { 1 | 3 | 5 | 7 => 1 + ssz, 2 | 4 | 6 | 8 => 2, _ => 1 }; }
+                p = q;
+            }
+        }
+        "td0" => { offs.extend(0..12.min(b.len())); offs.extend(12..40.min(b.len())); bounds.extend([11, 12, 13, 22]); }
+        "nib" | "do" | "po" | "d13" | "img" => {}
+        _ => {}
+    }
+    offs.sort(); offs.dedup(); offs.retain(|o| *o < b.len());
+    let mut bb: Vec<usize> = Vec::new();
+    for x in bounds { for d in [-1i64, 0, 1] { let y = x as i64 + d; if y >= 0 && (y as usize) < b.len() { bb.push(y as usize); } } }
+    bb.sort(); bb.dedup();
+    (offs, bb)
+}
+
+fn stream_images(r: &mut Run) {
+    let thorough = r.ctx.tier_thorough;
+    let seeds = build_seeds(thorough);
+    let mut rng0 = Rng::new(r.ctx.seed ^ 0x1316);
+    r.count_n("img:seeds", seeds.len() as u64);
+    for (si, seed) in seeds.iter().enumerate() {
+        let mut rng = rng0.fork(si as u64);
+        // 0: the seed itself must mount (sanity of the generator, and a PASS case)
+        let mut muts: Vec<Mutn> = Vec::new();
+        let (offs, bounds) = container_offsets(seed);
+        for o in &offs { for v in values_for(seed.bytes[*o]) { muts.push(Mutn::Poke(*o, v)); } }
+        for n in &bounds { muts.push(Mutn::Truncate(*n)); }
+        for n in [1usize, 2, 255, 256, 512, 4096] { muts.push(Mutn::Extend(n, 0)); muts.push(Mutn::Extend(n, 0xFF)); }
+        let blocks = fs_blocks(seed);
+        for (rf, data) in &blocks {
+            for off in 0..data.len() {
+                // all of the first 64 bytes and every byte that is in use; zero filler only sparsely
+                if off < 64 || data[off] != 0 || off % 16 == 0 || off + 2 >= data.len() {
+                    for v in values_for(data[off]) { muts.push(Mutn::Blk(*rf, off, v)); }
+                }
+            }
+        }
+        // random multi-byte pokes into container offsets (16/32 bit fields set to extreme values)
+        for o in &offs { if o % 2 == 0 { muts.push(Mutn::PokeLE(*o, 2, 0xFFFF)); muts.push(Mutn::PokeLE(*o, 4, 0xFFFF_FFFF)); muts.push(Mutn::PokeLE(*o, 4, 0x10)); } }
+        // budget: raw containers are cheap; encoded ones are sampled in the quick tier
+        let budget = if thorough { if seed.raw { 8000 } else { 2000 } } else if seed.raw { 900 } else { 160 };
+        let total = muts.len();
+        if muts.len() > budget {
+            // deterministic sample: keep order, choose `budget` indices
+            let mut keep: Vec<usize> = (0..muts.len()).collect();
+            for i in 0..budget { let j = i + rng.below(keep.len() - i); keep.swap(i, j); }
+            keep.truncate(budget); keep.sort();
+            muts = keep.into_iter().map(|i| muts[i].clone()).collect();
+        }
+        r.count_n(&format!("img:{}:mutations-enumerated", seed.name), total as u64);
+        // the untouched seed
+        if let Some(idx) = r.claim() {
+            let b = seed.bytes.clone(); let ext = seed.ext;
+            r.mark(idx, &format!("img/{}", seed.name), "seed");
+            let o = watched(20000, move || exercise(&b, Some(ext)));
+            r.verdict(idx, &format!("img/{}", seed.name), &o, "seed");
+            if let Outc::Ok(s) = &o { r.sample(&format!("seed {} ({} bytes) mounts: {}", seed.name, seed.bytes.len(), s)); }
+            else { r.count(&format!("img:{}:SEED-DOES-NOT-MOUNT", seed.name)); }
+            r.case(seed.name.as_bytes(), false);
+        }
+        for m in muts {
+            let Some(idx) = r.claim() else { continue };
+            if r.gave_up(&format!("img/{}", seed.name)) { continue; }
+            let Some(bytes) = apply(seed, &m) else { r.count("img:mutation-not-applicable"); continue };
+            let with_ext = idx % 4 != 0;
+            let desc = format!("seed={} ext={} mutation={:?}", seed.name, if with_ext { seed.ext } else { "-" }, m);
+            let ext = seed.ext;
+            let canon = [desc.as_bytes()].concat();
+            let nontrivial = bytes != seed.bytes;
+            r.mark(idx, &format!("img/{}", seed.name), &desc);
+            let o = watched(20000, move || exercise(&bytes, if with_ext { Some(ext) } else { None }));
+            r.verdict(idx, &format!("img/{}", seed.name), &o, &desc);
+            r.case(&canon, nontrivial);
+        }
+    }
+    // random byte strings with a plausible signature in front (identification must reject or survive)
+    let sigs: [&[u8]; 8] = [b"WOZ1\xFF\x0A\x0D\x0A", b"WOZ2\xFF\x0A\x0D\x0A", b"2IMG", b"IMD 1.18: 01/01/2000 00:00:00\r\n", b"TD\0", b"td\0", b"", b"\xEB\x3C\x90"];
+    let n = r.ctx.n(400, 20000);
+    for k in 0..n {
+        let mut rng = rng0.fork(0x5_0000 + k as u64);
+        let Some(idx) = r.claim() else { continue };
+        let mut b = rng.pick(&sigs).to_vec();
+        let len = *rng.pick(&[100usize, 128, 200, 512, 1024, 5000]);
+        let body = match rng.below(3) { 0 => vec![0u8; len], 1 => vec![0xFFu8; len], _ => rng.bytes(len) };
+        b.extend(body);
+        if rng.chance(30) { b.extend_from_slice(b"\x1a"); b.extend(rng.bytes(64)); }
+        let desc = format!("random sig+{} bytes: {}", len, cliphex(&b, 160));
+        let b2 = b.clone();
+        r.mark(idx, "img/random", &desc);
+        let o = watched(20000, move || exercise(&b2, None));
+        r.verdict(idx, "img/random", &o, &desc);
+        r.case(&b, true);
+    }
+}
+
+fn child(ctx: &mut Ctx, start: usize, rec_path: &str) {
+    let f = std::fs::File::create(rec_path).expect("create record file");
+    let mut r = Run { ctx, w: std::io::LineWriter::new(f), cur_path: format!("{}.cur", rec_path), start, idx: 0, hangs: Default::default() };
+    stream_fronts(&mut r);
+    stream_json(&mut r);
+    stream_tokens(&mut r);
+    stream_images(&mut r);
+    r.line("END".to_string());
+}
+
+/// The cases run in child processes (`C12_CHILD=<first idx>:<record file>`): a stack overflow or an
+/// allocation failure in a2kit aborts the whole process and cannot be caught; the parent then records
+/// the case that was running (sig `abort:<front>`) and starts a new child behind it.
+pub fn run(ctx: &mut Ctx) {
+    if let Ok(spec) = std::env::var("C12_CHILD") {
+        let (a, b) = spec.split_once(':').expect("C12_CHILD");
+        child(ctx, a.parse().expect("C12_CHILD idx"), b);
+        return;
+    }
+    let exe = std::env::current_exe().expect("current_exe");
+    let tier = if ctx.tier_thorough { "thorough" } else { "quick" };
+    let tmp = std::env::temp_dir().join(format!("c12-{}-{}", std::process::id(), ctx.seed));
+    let rec = format!("{}.rec", tmp.display());
+    let mut start = 0usize;
+    let mut aborts = 0;
+    let mut dist: std::collections::BTreeMap<String, u64> = Default::default();
+    loop {
+        let _ = std::fs::remove_file(format!("{}.cur", rec));
+        let mut cmd = std::process::Command::new(&exe);
+        cmd.arg("c12").arg(tier).arg(ctx.seed.to_string()).arg(format!("{}.ctxout", tmp.display()));
+        if let Some(k) = ctx.out.only { cmd.arg("--only").arg(k.to_string()); }
+        cmd.env("C12_CHILD", format!("{}:{}", start, rec)).stdout(std::process::Stdio::null());
+        match std::fs::File::create(format!("{}.err", tmp.display())) { Ok(f) => { cmd.stderr(f); } Err(_) => { cmd.stderr(std::process::Stdio::null()); } }
+        let status = cmd.status();
+        let mut ended = false;
+        if let Ok(text) = std::fs::read(&rec) {
+            for line in String::from_utf8_lossy(&text).lines() {
+                let p: Vec<&str> = line.split('\t').collect();
+                match p[0] {
+                    "Q" if p.len() >= 3 => ctx.out.q(p[1], p[2]),
+                    "O" if p.len() >= 5 => ctx.out.oracle(p[1] == "PASS", p[2], p[3], p[4]),
+                    "C" if p.len() >= 3 => ctx.out.case(p[1].as_bytes(), p[2] == "1"),
+                    "S" if p.len() >= 2 => ctx.out.sample(p[1]),
+                    "D" if p.len() >= 3 => { *dist.entry(p[1].to_string()).or_insert(0) += p[2].parse::<u64>().unwrap_or(0); }
+                    "END" => ended = true,
+                    _ => {}
+                }
+            }
+        }
+        let ok = matches!(&status, Ok(st) if st.success());
+        if ok && ended { break; }
+        // the child died: which case was it running?
+        aborts += 1;
+        let cur = std::fs::read_to_string(format!("{}.cur", rec)).unwrap_or_default();
+        let p: Vec<&str> = cur.split('\t').collect();
+        let errtxt = std::fs::read_to_string(format!("{}.err", tmp.display())).unwrap_or_default();
+        let errtail: String = errtxt.lines().rev().take(3).collect::<Vec<&str>>().into_iter().rev().collect::<Vec<&str>>().join(" | ");
+        let how = format!("{}; stderr: {}", match &status { Ok(st) => format!("{}", st), Err(e) => format!("{}", e) }, clip(&errtail, 300));
+        if p.len() >= 3 {
+            let idx: usize = p[0].parse().unwrap_or(usize::MAX - 1);
+            ctx.out.oracle(false, ORACLE, &format!("abort:{}", p[1]), &format!("idx={} front={} process died ({}) input={}", idx, p[1], how, p[2]));
+            *dist.entry(format!("{}:abort", p[1].split('/').next().unwrap_or(""))).or_insert(0) += 1;
+            if ctx.out.only.is_some() || aborts >= 40 || idx < start { break; }
+            start = idx + 1;
+        } else {
+            ctx.out.oracle(false, ORACLE, "abort:harness", &format!("idx=0 child process died ({}) before its first case", how));
+            break;
+        }
+    }
+    for (k, v) in dist { ctx.out.count_n(&k, v); }
+    for sfx in [".rec", ".rec.cur", ".ctxout", ".err"] { let _ = std::fs::remove_file(format!("{}{}", tmp.display(), sfx)); }
+}
